@@ -5,6 +5,9 @@
              dominated by a non-empty test of that list, every non-slice subscript is on a
              ``defaultdict`` (or a dict it just tested with ``in``), and it raises nothing
              itself.
+  C21-STACK  inner tags are validated by membership in the very stack that block tags are pushed
+             on and end tags pop (no derived set/counter that loses nested same-name blocks);
+             leftovers and mismatched pops are reported as unclosed.
   C21-INNER  for every registered block tag, the inner tag names its parser accepts (tag-name
              constants in the end-sets it passes to ``parse_block`` and in its ``is_tag`` /
              ``value ==`` tests, minus its own end tag and EOF) plus ``break``/``continue`` when
@@ -120,7 +123,7 @@ def parser_facts(repo: Repo, tag, eof: str):
 
 def run(repo: Repo) -> Result:
     res = Result(PID)
-    res.rules = ["C21-TOTAL", "C21-INNER", "C21-END", "C21-BLOCK"]
+    res.rules = ["C21-TOTAL", "C21-STACK", "C21-INNER", "C21-END", "C21-BLOCK"]
     res.explanation = "totality of the tag audit (guarded pops / subscripts) and agreement between each block tag's parser, its declared end tag and DEFAULT_INNER_TAG_MAP"
     res.assumptions = ["sources the lexer accepts (post-lexing token lists)", "default and extra registries"]
     reg = Registry(repo)
@@ -140,7 +143,21 @@ def run(repo: Repo) -> Result:
                 tgt, v = st.target, st.value
             if tgt is not None and isinstance(v, ast.Call) and callee_name(v) == "defaultdict":
                 dd_vars.add(text(tgt))
+        ann_nodes = set()
+        for n in ast.walk(f.node):
+            anns = []
+            if isinstance(n, ast.AnnAssign):
+                anns.append(n.annotation)
+            elif isinstance(n, ast.arg) and n.annotation is not None:
+                anns.append(n.annotation)
+            elif isinstance(n, (ast.FunctionDef, ast.AsyncFunctionDef)) and n.returns is not None:
+                anns.append(n.returns)
+            for a in anns:
+                for x in ast.walk(a):
+                    ann_nodes.add(id(x))
         for n in walk_no_nested(f.node):
+            if id(n) in ann_nodes:
+                continue  # annotations are not evaluated
             if isinstance(n, ast.Raise):
                 res.add("C21-TOTAL", f.qual, f"raise:{text(n)[:40]}", f"{f.qual} raises `{text(n)[:60]}`: tag analysis must return a result for every token list", f.file, n.lineno)
             if isinstance(n, ast.Subscript) and not isinstance(n.slice, ast.Slice) and isinstance(n.ctx, ast.Load):
@@ -177,6 +194,37 @@ def run(repo: Repo) -> Result:
     audit = repo.own_method(TA, "_audit_tags")
     if not any(callee_name(c) == "pop" for c in calls(audit.node)):
         raise AnchorMissing("_audit_tags no longer pops its block stack; re-derive C21-TOTAL")
+
+    # ---- C21-STACK: inner tags are validated against the stack of *open* blocks itself ----
+    res.ob("stack", 5)
+    pushes = [c for c in calls(audit.node) if callee_name(c) == "append" and c.args and isinstance(c.args[0], ast.Call) and callee_name(c.args[0]) == "_BlockStackItem" and isinstance(c.func.value, ast.Name)]
+    pops = [c for c in calls(audit.node) if callee_name(c) == "pop" and not c.args and isinstance(c.func.value, ast.Name)]
+    stack_names = {c.func.value.id for c in pushes}
+    if len(stack_names) != 1 or {c.func.value.id for c in pops} != stack_names:
+        res.add("C21-STACK", audit.qual, "push-pop", "_audit_tags must push every block tag on one stack and pop that same stack on every end tag", audit.file, audit.line)
+    else:
+        stack = next(iter(stack_names))
+        vcalls = [c for c in calls(audit.node) if callee_name(c) == "_valid_inner_tag"]
+        if len(vcalls) != 1 or len(vcalls[0].args) != 2 or not is_name(vcalls[0].args[1], stack):
+            res.add("C21-STACK", audit.qual, f"inner-validated-against:{text(vcalls[0].args[1]) if vcalls and len(vcalls[0].args) == 2 else None}", f"an inner tag must be validated against the stack of open blocks itself (`{stack}`): any derived container (a set of names, a counter) forgets that an enclosing block of the same name is still open after a nested one closes", audit.file, audit.line)
+        # every other container that mirrors the stack is suspicious: adds/discards next to push/pop
+        for c in calls(audit.node):
+            if callee_name(c) in ("add", "discard", "remove") and isinstance(c.func.value, ast.Name) and c.func.value.id != stack and c.func.value.id not in ("unclosed_tags", "unexpected_tags", "unknown_tags"):
+                res.add("C21-STACK", audit.qual, f"shadow-container:{c.func.value.id}", f"_audit_tags mirrors the block stack in `{c.func.value.id}` ({text(c)[:40]}): a set cannot count nested blocks of the same name", audit.file, c.lineno)
+        after = [s for s in audit.node.body if isinstance(s, ast.For) and is_name(s.iter, stack)]
+        if not after or "unclosed_tags[block.name].append(" not in text(after[-1]):
+            res.add("C21-STACK", audit.qual, "leftover-unclosed", "blocks left on the stack at the end must be reported as unclosed", audit.file, audit.line)
+        mism = [n for n in ast.walk(audit.node) if isinstance(n, ast.If) and text(n.test) == "start_block_tag != tag_name[3:]"]
+        if not mism or "unclosed_tags[start_block_tag.name].append(" not in text(mism[0]):
+            res.add("C21-STACK", audit.qual, "mismatch-unclosed", "an end tag that does not match the popped block must report that block as unclosed", audit.file, audit.line)
+    vit = repo.own_method(TA, "_valid_inner_tag")
+    rets = [s for s in walk_no_nested(vit.node) if isinstance(s, ast.Return)]
+    params = [p for p in vit.params() if p != "self"]
+    if len(rets) != 1 or len(params) != 2 or text(rets[0].value) != f"any((tag_name in {params[1]} for tag_name in {params[0]}))":
+        res.add("C21-STACK", vit.qual, "membership", "_valid_inner_tag must be `any(tag_name in block_stack for tag_name in tag_names)`", vit.file, vit.line)
+    bsi = repo.own_method("liquid.analyze_tags._BlockStackItem", "__eq__")
+    if "== self.name" not in text(bsi.node):
+        res.add("C21-STACK", bsi.qual, "eq-by-name", "_BlockStackItem must compare equal to its tag name (the membership test relies on it)", bsi.file, bsi.line)
 
     # ---- inner tag map -----------------------------------------------------------
     mp_expr = repo.const("liquid.analyze_tags.DEFAULT_INNER_TAG_MAP")
@@ -276,5 +324,6 @@ def selftest(repo: Repo):
         v("inline-declared-block", "liquid/builtin/tags/echo_tag.py", "    name = TAG_ECHO\n    block = False\n", "    name = TAG_ECHO\n", "C21-BLOCK"),
         v("audit-raises", A, "        # Catch any unclosed tags.\n", "        if len(block_stack) > 100:\n            raise ValueError('too deep')\n        # Catch any unclosed tags.\n", "C21-TOTAL"),
         v("audit-plain-dict", A, "        unknown_tags: TagMap = defaultdict(list)", "        unknown_tags: TagMap = {}", "C21-TOTAL"),
+        v("open-blocks-set", A, "                elif not self._valid_inner_tag(\n                    self._inner_tags.get(tag_name, []), block_stack\n                ):", "                elif not self._valid_inner_tag(\n                    self._inner_tags.get(tag_name, []), {b.name for b in block_stack[-1:]}\n                ):", "C21-STACK"),
         v("tablerow-no-interrupts-map", A, '    "tablerow": ["break", "continue"],\n', "", "C21-INNER"),
     ]
